@@ -18,6 +18,9 @@ func H_C14_loop() {
 	vNVcur = 2
 	setMerge(true)
 	R := 3
+	if tierThorough() {
+		R = 8
+	}
 	ss := vNewSession()
 	// real progress on an arbitrary vBucket, acknowledged
 	ss.deliverDoc(choose("vb", vNV()), 0, true)
